@@ -2350,7 +2350,7 @@ class nx_async_config (nicira_base):
     if slave: self.port_status_mask_slave |= bit
 
   def set_flow_removed (self, bit, master=True, slave=True):
-    if master: selfflow_removed_mask |= bit
+    if master: self.flow_removed_mask |= bit
     if slave: self.flow_removed_mask_slave |= bit
 
   def _eq (self, other):
